@@ -202,16 +202,20 @@ def enum_ps():
 
 PS = Contract(
     target=f"{CIRC}:Circuit.ps",
-    types={"self": CIRCUIT, "mode": MODE_T, "phi": "real", "loss": LOSS_T},
+    types={"self": CIRCUIT, "mode": MODE_T, "phi": ["real", PARAM], "loss": LOSS_T},
     requires=[WF_INTERNAL, "mode >= 0"],
     modifies=["self.__circuit_spec"],
     ensures={
         "phase_shifter_recorded": "isinstance(suffix(self.__circuit_spec)[0], PhaseShifter) and suffix(self.__circuit_spec)[0].mode == self._map_mode(old(mode)) "
-                                  "and suffix(self.__circuit_spec)[0].phi == phi",
+                                  "and (suffix(self.__circuit_spec)[0].phi is phi if isinstance(phi, Parameter) else suffix(self.__circuit_spec)[0].phi == phi)",
         "count": "len(suffix(self.__circuit_spec)) == (2 if (isinstance(loss, Parameter) or lossvalue(loss) > 0) else 1)",
         "loss_on_same_mode": "implies(isinstance(loss, Parameter) or lossvalue(loss) > 0, isinstance(suffix(self.__circuit_spec)[1], Loss) and "
                              "suffix(self.__circuit_spec)[1].mode == self._map_mode(old(mode)))",
         "mode_valid": "0 <= suffix(self.__circuit_spec)[0].mode and suffix(self.__circuit_spec)[0].mode < self.__n_modes",
+        # C10: a Parameter given as loss stays live - the Loss element is recorded whatever the Parameter's current value (also 0) and holds the
+        # Parameter object itself, not its value
+        "loss_parameter_kept": "implies(isinstance(loss, Parameter), len(suffix(self.__circuit_spec)) == 2 and suffix(self.__circuit_spec)[1].loss is loss)",
+        "loss_value_kept": "implies(not isinstance(loss, Parameter) and lossvalue(loss) > 0, suffix(self.__circuit_spec)[1].loss == loss)",
     },
     raises={"ModeRangeError": "not (self._map_mode(mode) < self.__n_modes)",
             "TypeError": "self._map_mode(mode) < self.__n_modes and isinstance(loss, str)",
@@ -220,7 +224,7 @@ PS = Contract(
     inline=["loss"],       # should ps() be written in terms of self.loss() again, that call is executed from its real source
     exc_frame=True,
     replay=replay_ps,
-    props=["C01", "C08"],
+    props=["C01", "C08", "C10"],
 )
 PS.enum = enum_ps
 
@@ -233,11 +237,13 @@ LOSS = Contract(
         "loss_recorded": "len(suffix(self.__circuit_spec)) == 1 and isinstance(suffix(self.__circuit_spec)[0], Loss) and "
                          "suffix(self.__circuit_spec)[0].mode == self._map_mode(old(mode))",
         "mode_valid": "0 <= suffix(self.__circuit_spec)[0].mode and suffix(self.__circuit_spec)[0].mode < self.__n_modes",
+        "loss_parameter_kept": "implies(isinstance(loss, Parameter), suffix(self.__circuit_spec)[0].loss is loss)",
+        "loss_value_kept": "implies(not isinstance(loss, Parameter), suffix(self.__circuit_spec)[0].loss == loss)",
     },
     raises=PS.raises,
     defs=LOSSVAL,
     exc_frame=True,
-    props=["C01", "C08"],
+    props=["C01", "C08", "C10"],
 )
 
 WF_RANGE = "forall(t, implies(0 <= t and t < len(self.__internal_modes), 0 <= at(self.__internal_modes,t) and at(self.__internal_modes,t) < self.__n_modes))"
@@ -326,6 +332,9 @@ BS = Contract(
         "losses_on_same_modes": "implies(isinstance(loss, Parameter) or lossvalue(loss) > 0, "
                                 "isinstance(suffix(self.__circuit_spec)[1], Loss) and suffix(self.__circuit_spec)[1].mode == self._map_mode(old(mode_1)) and "
                                 "isinstance(suffix(self.__circuit_spec)[2], Loss) and suffix(self.__circuit_spec)[2].mode == self._map_mode(second(old(mode_1), old(mode_2))))",
+        "loss_parameter_kept": "implies(isinstance(loss, Parameter), len(suffix(self.__circuit_spec)) == 3 and suffix(self.__circuit_spec)[1].loss is loss "
+                               "and suffix(self.__circuit_spec)[2].loss is loss)",
+        "reflectivity_parameter_kept": "implies(isinstance(reflectivity, Parameter), suffix(self.__circuit_spec)[0].reflectivity is reflectivity)",
     },
     raises={"ModeRangeError": "not (self._map_mode(mode_1) < self.__n_modes) or self._map_mode(mode_1) == self._map_mode(second(mode_1, mode_2)) or "
                               "not (self._map_mode(second(mode_1, mode_2)) < self.__n_modes)",
@@ -335,8 +344,8 @@ BS = Contract(
     defs={**LOSSVAL, "second": lambda ex, m1, m2: (m1 + 1 if m2 is None else m2)},
     inline=["loss"],
     exc_frame=True,
-    types_quick={"reflectivity": "real", "loss": ["real", PARAM], "convention": ["'H'", "'Q'"]},
-    props=["C01", "C08"],
+    types_quick={"reflectivity": ["real", PARAM], "loss": ["real", PARAM], "convention": ["'H'", "'Q'"]},
+    props=["C01", "C08", "C10"],
 )
 _VALID = ("(self._map_mode(mode_1) < self.__n_modes and self._map_mode(mode_1) != self._map_mode(second(mode_1, mode_2)) and "
           "self._map_mode(second(mode_1, mode_2)) < self.__n_modes)")
@@ -525,3 +534,14 @@ def _map_mode_pairs(ex, vals_a, res_a, vals_b, res_b):
 
 CONTRACTS[0].pair_facts = _map_mode_pairs
 CONTRACTS[0].pair_lemma = "lemma.map-mode-monotone (z3, vf/lemmas/z3lemmas.py): _map_mode is strictly increasing in the mode for a fixed ancilla list"
+
+
+# run-time counterparts of the contract-defined spec functions (vf/pyvc/rtc.py evaluates the clauses that use them on the real objects)
+def _rt_lossvalue(v):
+    return v.get() if hasattr(v, "get") and hasattr(v, "set") else v
+
+
+_RT = {"lossvalue": _rt_lossvalue, "second": lambda m1, m2: (m1 + 1 if m2 is None else m2), "out_mode": lambda i, o: (i if o is None else o)}
+for _c in CONTRACTS:
+    if _c.defs:
+        _c.rt_defs = {k: _RT[k] for k in _c.defs if k in _RT}
